@@ -1558,6 +1558,19 @@ def c17(W, replay=None):
             c["id"] = "c17/%d" % i
         log("[gen] C17: %d documents enumerated by TLC" % len(cases))
         cases += fixture_mutations(W, 5000 if W.tier == "thorough" else 600)
+        # the same documents with trigger rules in them: complete ones, a path match without any match type (well-formed: the oneof is
+        # optional), a regular expression that does not compile. Loading may accept or reject these; it never panics, and what it accepts
+        # is judged as before
+        rules = {"ok": [{"excluded_paths": [{"exact": "/healthz"}, {"suffix": ".css"}], "included_paths": [{"prefix": "/"}]}],
+                 "typeless": [{"excluded_paths": [{}]}, {"included_paths": [{}, {"regex": "^/a"}]}],
+                 "badRegex": [{"excluded_paths": [{"regex": "("}]}], "empty": [{}]}
+        base = [c for c in cases if c["id"].startswith("c17/") and "json" in c and "doc" in c]
+        for k, c in enumerate(sample(W, base, 2000 if W.tier == "thorough" else 240)):
+            name = list(rules)[k % len(rules)]
+            v = json.loads(json.dumps(c))
+            v["id"] = c["id"] + "/rules-" + name
+            v["json"]["trigger_rules"] = rules[name]
+            cases.append(v)
     else:
         cases = [json.loads(l) for l in open(os.path.join(replay, "scenario.ndjson")) if l.strip()]
     index = {c["id"]: c for c in cases}
